@@ -1,4 +1,5 @@
 import CoxeterVerif.Model.Mutable
+import CoxeterVerif.Spec.Solid
 /-!
   C01, state part: where the values behind `volume`, `surface_area`, `centroid`, `inertia_tensor` come from.
 
@@ -55,5 +56,10 @@ def run (s : CPState α) (ops : List (MOp α)) : CPState α := ops.foldl apply s
 
 /-- `inertia_tensor`: current vertices, STORED simplex normals, centroid and volume -/
 def inertiaTensor (s : CPState α) : M3 α := CP.inertiaWith s.tris s.seqN s.centroid s.volume
+
+/-- every tetrahedron is positively oriented (`det(B−A, C−A, D−A) > 0`): the hypothesis under which the signed
+    integrals of the exactness theorems are Lebesgue integrals over the tetrahedra as sets without signs
+    (`cp_*_lebesgue`); decided exactly (ℚ) by the driver on the run's cone tetrahedra -/
+def posTetsCheck (Ts : List (Tet α)) : Bool := Ts.all fun T => decide (lit 0 < Spec.tetVol T)
 
 end CPH
